@@ -12,7 +12,7 @@ What is pulled from the current source (prysm/fttools.py, prysm/propagation.py):
 """
 import ast
 from pyexpr2lean import (Gen, Tr, Untranslatable, load, get_def, find_assign, find_assigns, find_returns,
-                         elementwise, comp_parts, find_calls, call_arg)
+                         elementwise, comp_parts, find_calls, call_arg, fn_to_lean)
 
 M = 'Model.C01'
 
@@ -158,10 +158,17 @@ def imag_sign(expr, env):
 
 
 # ------------------------------------------------------------------------------------------------
-def generate(repo, pid='C01', extra_imports=(), extra_opens=(), extra=None):
-    """pid/extra: tools/gen_c02.py re-emits the same items into `Generated.C02` and appends its own"""
+def generate(repo, pid='C01', extra_imports=(), extra_opens=(), extra=None, skip=()):
+    """pid/extra/skip: tools/gen_c02.py re-emits the items IT NEEDS into `Generated.C02` and appends its own"""
     g = Gen(pid, imports=['PrysmVerif.PyPrelude', 'PrysmVerif.Model.C01'] + list(extra_imports),
             opens=['Model.C01'] + list(extra_opens))
+    if skip:
+        _item = g.item
+
+        def item(name, *a, **k):
+            if name not in skip:
+                _item(name, *a, **k)
+        g.item = item
     ft, _ = load(repo, 'prysm/fttools.py')
     pr, _ = load(repo, 'prysm/propagation.py')
 
@@ -226,38 +233,41 @@ def generate(repo, pid='C01', extra_imports=(), extra_opens=(), extra=None):
         s_out = sign_of_augassign(fn, 'm', 'shift')
         s_in = sign_of_augassign(fn, 'n', 'shift')
         a, b = find_assign(fn, 'a'), find_assign(fn, 'b')
-        for nm, e, v in (('a', a, 'm'), ('b', b, 'n')):
-            if not (isinstance(e, ast.Call) and u(e.func).endswith('exp')):
+        penv = {k: v for k, v in env.items() if k not in ('m', 'n', 'a', 'b', 'h', 'H', 'j')}
+
+        def chirp_of(nm, e, v):
+            """exp(<+-1j * np.pi> * v * v * alpha) in any association / with the prefactor held in a local"""
+            if not (isinstance(e, ast.Call) and u(e.func).endswith('exp') and len(e.args) == 1):
                 raise Untranslatable(f'{nm} is not an exponential')
-            r = u(resolve(e.args[0], {'prefix': env['prefix']}))
-            names = sorted(x.id for x in ast.walk(e.args[0]) if isinstance(x, ast.Name))
-            if names != sorted(['prefix', v, v, 'alpha']):
-                raise Untranslatable(f'{nm} = exp({u(e.args[0])}) is not prefix * {v} * {v} * alpha')
-        sa, maga = imag_sign(a.args[0], {'prefix': env['prefix']})
-        sb, magb = imag_sign(b.args[0], {'prefix': env['prefix']})
+            r = resolve(e.args[0], penv)
+            names = sorted(x.id for x in ast.walk(r) if isinstance(x, ast.Name) and x.id != 'np')
+            if names != sorted([v, v, 'alpha']) or 'np.pi' not in u(r):
+                raise Untranslatable(f'{nm} = exp({u(r)}) is not (+-i pi) * {v} * {v} * alpha')
+            sgn, mag = imag_sign(r, {})
+            if mag != 1.0:
+                raise Untranslatable(f'{nm}: magnitude of the imaginary prefactor is {mag}')
+            return sgn
+        sa = chirp_of('a', a, 'm')
+        sb = chirp_of('b', b, 'n')
         hexp = [n for n in ast.walk(fn) if isinstance(n, ast.Assign) and u(n.targets[0]) == 'h'
                 and isinstance(n.value, ast.Call) and u(n.value.func).endswith('exp')][0]
-        sh, magh = imag_sign(hexp.value.args[0], {})
-        names = sorted(x.id for x in ast.walk(hexp.value.args[0]) if isinstance(x, ast.Name))
-        if names != ['alpha', 'h'] or (maga, magb, magh) != (1.0, 1.0, 1.0) or 'np.pi' not in u(env['prefix']):
-            raise Untranslatable('chirp exponents are not (+-)i*pi*alpha*x^2')
+        rh = resolve(hexp.value.args[0], penv)
+        sh, magh = imag_sign(rh, {})
+        names = sorted(x.id for x in ast.walk(rh) if isinstance(x, ast.Name) and x.id != 'np')
+        if names != ['alpha', 'h'] or magh != 1.0:
+            raise Untranslatable('kernel exponent is not (+-i) * alpha * h')
         # norm: b *= alpha / sqrt(alpha)
         nb = [n for n in ast.walk(fn) if isinstance(n, ast.AugAssign) and u(n.target) == 'b']
         ok_norm = len(nb) == 1 and isinstance(nb[0].op, ast.Mult) and u(nb[0].value) in (
             'alpha / np.sqrt(alpha)', 'np.sqrt(alpha)')
         Hs = u(find_assign(fn, 'H'))
         rets = [u(r) for r in find_returns(fn)]
-        if not ok_norm or Hs != 'fft.fft(h)' or rets != ['(H, b, a)']:
+        if not ok_norm or Hs.replace(' ', '') not in ('fft.fft(h)', 'fft.fft(h,K)', 'fft.fft(h,n=K)') or rets != ['(H, b, a)']:
             # textual facts: an unrecognised shape is "untranslatable" (hand model + widened correspondence), not "false"
             raise Untranslatable(f'norm / return statements not recognised: {[u(n) for n in nb]}, H = {Hs}, return {rets}')
-        return (f'def cztShiftSignOut : Int := {s_out}\ndef cztShiftSignIn : Int := {s_in}\n'
-                f'def cztChirpSignA : Int := {sa}\ndef cztChirpSignB : Int := {sb}\ndef cztChirpSignH : Int := {sh}\n'
-                f'def cztNormIsSqrtAlphaOnB : Bool := {"true" if ok_norm else "false"}\n'
-                f'def cztReturnsFftOfH : Bool := {"true" if (Hs == "fft.fft(h)" and rets == ["(H, b, a)"]) else "false"}')
+        return (f'def cztSignsGen : CztSigns := {{ shiftOut := {s_out}, shiftIn := {s_in}, chirpA := {sa}, chirpB := {sb}, chirpH := {sh} }}')
     g.item('czt.signs', 'prysm/fttools.py:_prepare_czt_basis', lambda: get_def(ft, '_prepare_czt_basis'), czt_signs,
-           'def cztShiftSignOut : Int := -1\ndef cztShiftSignIn : Int := -1\n'
-           'def cztChirpSignA : Int := -1\ndef cztChirpSignB : Int := -1\ndef cztChirpSignH : Int := 1\n'
-           'def cztNormIsSqrtAlphaOnB : Bool := true\ndef cztReturnsFftOfH : Bool := true')
+           f'def cztSignsGen : CztSigns := {M}.cztSignsRef')
 
     # =========================================================================== ChirpZTransformExecutor
     def czt_key_texts():
@@ -351,58 +361,100 @@ def generate(repo, pid='C01', extra_imports=(), extra_opens=(), extra=None):
 
     def czt_pipeline():
         fn = get_def(ft, 'ChirpZTransformExecutor.czt2')
-        # the statements after the unpacking of the components, normalised
         unp = [n for n in fn.body if isinstance(n, ast.Assign) and u(n.value) == 'self.components[key]']
         if len(unp) != 1:
             raise Untranslatable('components are not unpacked exactly once')
         names = [u(t) for t in unp[0].targets[0].elts]
-        if names != ['brow', 'bcol', 'Hrow', 'Hcol', 'arow', 'acol']:
-            raise Untranslatable(f'component names {names}')
         sb = get_def(ft, 'ChirpZTransformExecutor._setup_bases')
-        stored = [u(n.value) for n in ast.walk(sb) if isinstance(n, ast.Assign) and u(n.targets[0]) == 'self.components[key]']
-        if stored != ['(brow, bcol, Hrow, Hcol, arow, acol)']:
-            raise Untranslatable(f'components stored as {stored}')
+        stored = [n.value for n in ast.walk(sb) if isinstance(n, ast.Assign) and u(n.targets[0]) == 'self.components[key]']
+        if len(stored) != 1 or [u(x) for x in stored[0].elts] != names:
+            raise Untranslatable('components are stored and unpacked under different names / orders')
+        # role of every component name: which basis triple (H, b, a) position it comes from
+        role = {}
+        for n in ast.walk(sb):
+            if isinstance(n, ast.Assign) and isinstance(n.value, ast.Call) and u(n.value.func) == '_prepare_czt_basis':
+                for nm, r in zip([u(t) for t in n.targets[0].elts], ('H', 'b', 'a')):
+                    role[nm] = r
+        if sorted(role.get(nm, '?') for nm in names) != ['H', 'H', 'a', 'a', 'b', 'b']:
+            raise Untranslatable(f'component roles {role}')
         idx = fn.body.index(unp[0])
-        stmts = [u(s) for s in fn.body[idx + 1:] if not (isinstance(s, ast.Expr) and isinstance(s.value, ast.Constant))]
-        # accept the two commuting orders of the row/column multiplications
-        def canon(ss):
-            out = []
-            for s in ss:
-                s = s.replace('gb = ary * brow', 'gb = ary * bcol#swap')
-                out.append(s)
-            return out
-        want = ['gb = ary * bcol', 'gb *= brow', 'GBhat = fft.fft2(gb, (K, L))', 'GBhat *= Hcol', 'GBhat *= Hrow',
-                'gxformed = fft.ifft2(GBhat)', 'gxformed = gxformed[:M, :N]', 'gxformed *= acol', 'gxformed *= arow',
-                'return gxformed']
-        mult = lambda ss: sorted(s for s in ss if '*=' in s or s.startswith('gb = ary *'))
-        order = [s for s in stmts if '*=' not in s and not s.startswith('gb = ary *')]
-        worder = [s for s in want if '*=' not in s and not s.startswith('gb = ary *')]
-        if order != worder:
-            raise Untranslatable(f'pipeline statements {order}')
-        mm = mult(stmts)
-        ok = sorted(x.replace('gb = ary * ', 'gb *= ') for x in mm) == sorted(x.replace('gb = ary * ', 'gb *= ') for x in mult(want))
-        # positions: gb multiplications before fft2, H multiplications between fft2 and ifft2, a after the crop
-        pos = {s: i for i, s in enumerate(stmts)}
-        def between(s, lo, hi):
-            return pos[lo] < pos[s] < pos[hi] if lo else pos[s] < pos[hi]
-        try:
-            ok = ok and all(pos[s] < pos['GBhat = fft.fft2(gb, (K, L))'] for s in stmts if s.startswith('gb'))
-            ok = ok and all(pos['GBhat = fft.fft2(gb, (K, L))'] < pos[s] < pos['gxformed = fft.ifft2(GBhat)']
-                            for s in stmts if s.startswith('GBhat *='))
-            ok = ok and all(pos['gxformed = gxformed[:M, :N]'] < pos[s] for s in stmts if s.startswith('gxformed *='))
-        except KeyError:
-            ok = False
+        stages = []
+        used = {'b': set(), 'H': set(), 'a': set()}
+
+        def factors(e):
+            """names multiplied together in a product expression (any association / order)"""
+            if isinstance(e, ast.BinOp) and isinstance(e.op, ast.Mult):
+                return factors(e.left) + factors(e.right)
+            if isinstance(e, ast.Name):
+                return [e.id]
+            raise Untranslatable(f'not a product of names: {u(e)}')
+
+        def push(st):
+            if not stages or stages[-1] != st:
+                stages.append(st)
+        cur = None            # name of the array being transformed
+        for st in fn.body[idx + 1:]:
+            if isinstance(st, ast.Expr) and isinstance(st.value, ast.Constant):
+                continue
+            if isinstance(st, ast.Return):
+                if u(st.value) != cur:
+                    raise Untranslatable(f'returns {u(st.value)}, pipeline variable is {cur}')
+                continue
+            if isinstance(st, ast.AugAssign) and isinstance(st.op, ast.Mult) and isinstance(st.target, ast.Name):
+                fs, tgt = factors(st.value), st.target.id
+            elif isinstance(st, ast.Assign) and isinstance(st.targets[0], ast.Name) and isinstance(st.value, ast.BinOp) \
+                    and isinstance(st.value.op, ast.Mult):
+                fs, tgt = factors(st.value), st.targets[0].id
+                src = [x for x in fs if x not in role]
+                if len(src) != 1 or (cur is not None and src[0] != cur) or (cur is None and src[0] != 'ary'):
+                    raise Untranslatable(f'product statement {u(st)}')
+                fs = [x for x in fs if x in role]
+                cur = tgt
+                tgt = None
+            elif isinstance(st, ast.Assign) and isinstance(st.targets[0], ast.Name) and isinstance(st.value, ast.Call):
+                f_ = u(st.value.func)
+                arg0 = u(st.value.args[0]) if st.value.args else None
+                if arg0 != cur:
+                    raise Untranslatable(f'{u(st)} does not continue the pipeline variable {cur}')
+                if f_ == 'fft.fft2':
+                    push('.fft')
+                elif f_ == 'fft.ifft2':
+                    if len(st.value.args) != 1 or st.value.keywords:
+                        raise Untranslatable('ifft2 with extra arguments')
+                    push('.ifft')
+                else:
+                    raise Untranslatable(f'call {f_} in the pipeline')
+                cur = st.targets[0].id
+                continue
+            elif isinstance(st, ast.Assign) and isinstance(st.targets[0], ast.Name) and isinstance(st.value, ast.Subscript):
+                if u(st.value.value) != cur or u(st.value.slice).replace(' ', '') not in (':M,:N', '(:M,:N)', '0:M,0:N', '(0:M,0:N)'):
+                    raise Untranslatable(f'crop statement {u(st)}')
+                push('.crop')
+                cur = st.targets[0].id
+                continue
+            else:
+                raise Untranslatable(f'statement {u(st)[:60]}')
+            if tgt is not None and tgt != cur:
+                raise Untranslatable(f'{u(st)} multiplies {tgt}, pipeline variable is {cur}')
+            rs = {role.get(x) for x in fs}
+            if len(rs) != 1 or None in rs:
+                raise Untranslatable(f'mixed / unknown factors in {u(st)}')
+            r = rs.pop()
+            used[r] |= set(fs)
+            push({'b': '.mulB', 'H': '.mulH', 'a': '.mulA'}[r])
+        # every stage must have used both its row and its column factor exactly
+        for r in ('b', 'H', 'a'):
+            if used[r] != {nm for nm in names if role[nm] == r}:
+                raise Untranslatable(f'stage {r} uses factors {sorted(used[r])}')
         ic = get_def(ft, 'ChirpZTransformExecutor.iczt2')
-        body = [u(s) for s in ic.body if not (isinstance(s, ast.Expr) and isinstance(s.value, ast.Constant))]
-        ok_i = body == ['if np.iscomplexobj(ary):\n    ary = np.conj(ary)',
-                        'xformed = np.conj(self.czt2(ary, Q, samples_out, shift))', 'return xformed']
-        if not ok_i:
+        body = [u(x) for x in ic.body if not (isinstance(x, ast.Expr) and isinstance(x.value, ast.Constant))]
+        if body != ['if np.iscomplexobj(ary):\n    ary = np.conj(ary)',
+                    'xformed = np.conj(self.czt2(ary, Q, samples_out, shift))', 'return xformed']:
             raise Untranslatable(f'iczt2 body not recognised: {body}')
-        return (f'def cztPipelineIsBluestein : Bool := {"true" if ok else "false"}\n'
-                f'def icztIsConjCztConj : Bool := {"true" if ok_i else "false"}')
+        return f'def cztStagesGen : List CztStage := [{", ".join(stages)}]'
     g.item('czt.pipeline', 'prysm/fttools.py:ChirpZTransformExecutor.czt2/iczt2',
            lambda: get_def(ft, 'ChirpZTransformExecutor.czt2'), czt_pipeline,
-           'def cztPipelineIsBluestein : Bool := true\ndef icztIsConjCztConj : Bool := true')
+           f'def cztStagesGen : List CztStage := {M}.cztStagesRef')
 
     def czt_cache():
         fn, key = czt_key_texts()
@@ -419,15 +471,23 @@ def generate(repo, pid='C01', extra_imports=(), extra_opens=(), extra=None):
         return (f'def cztKeyFields : List String := {lean_list(key)}\n'
                 f'def cztBuildReads : List String := {lean_list(reads)}')
     g.item('czt.cache', 'prysm/fttools.py:ChirpZTransformExecutor', lambda: get_def(ft, 'ChirpZTransformExecutor._setup_bases'),
-           czt_cache, 'def cztKeyFields : List String := []\ndef cztBuildReads : List String := []')
+           czt_cache, f'def cztKeyFields : List String := {M}.cztKeyFieldsRef\ndef cztBuildReads : List String := {M}.cztKeyFieldsRef')
 
     # =========================================================================== MatrixDFTExecutor
-    def mdft_cache():
+    def mdft_key_texts():
         kf = get_def(ft, 'MatrixDFTExecutor._key')
         (ret,) = find_returns(kf)
+        if isinstance(ret, ast.Name):
+            vals = find_assigns(kf, ret.id)
+            if len(vals) != 1:
+                raise Untranslatable('_key returns a name assigned more than once')
+            ret = vals[0]
         if not isinstance(ret, ast.Tuple):
             raise Untranslatable('_key does not return a tuple literal')
-        key = [u(e) for e in ret.elts]
+        return [u(e) for e in ret.elts]
+
+    def mdft_cache():
+        key = mdft_key_texts()
         sb = get_def(ft, 'MatrixDFTExecutor._setup_bases')
         unpack = [n for n in ast.walk(sb) if isinstance(n, ast.Assign) and isinstance(n.targets[0], ast.Tuple)
                   and u(n.value) == 'key']
@@ -447,13 +507,11 @@ def generate(repo, pid='C01', extra_imports=(), extra_opens=(), extra=None):
                 f'def mdftBuildReads : List String := {lean_list(reads)}')
     g.item('mdft.cache', 'prysm/fttools.py:MatrixDFTExecutor._key/_setup_bases',
            lambda: get_def(ft, 'MatrixDFTExecutor._setup_bases'), mdft_cache,
-           'def mdftKeyFields : List String := []\ndef mdftBuildReads : List String := []')
+           f'def mdftKeyFields : List String := {M}.mdftKeyFieldsRef\ndef mdftBuildReads : List String := {M}.mdftKeyFieldsRef')
 
     def mdft_wiring():
         sb = get_def(ft, 'MatrixDFTExecutor._setup_bases')
-        kf = get_def(ft, 'MatrixDFTExecutor._key')
-        (ret,) = find_returns(kf)
-        key = [u(e) for e in ret.elts]
+        key = mdft_key_texts()
         env = local_env(sb)
         unpack = [n for n in ast.walk(sb) if isinstance(n, ast.Assign) and isinstance(n.targets[0], ast.Tuple)
                   and u(n.value) == 'key'][0]
@@ -591,6 +649,10 @@ def generate(repo, pid='C01', extra_imports=(), extra_opens=(), extra=None):
             sin = call_arg(c, 0, 'samples_in')
             if not isinstance(fw, ast.Constant) or u(sin) != 'ary.shape':
                 raise Untranslatable(f'{meth}: key arguments')
+            for pos, kw in ((1, 'Q'), (2, 'samples_out'), (3, 'shift')):
+                a_ = call_arg(c, pos, kw)
+                if a_ is None or u(a_) != kw:
+                    raise Untranslatable(f'{meth}: _key is not handed its own {kw}')
             vals[meth] = fw.value
         return (f'def mdftDft2IsFwd : Bool := {"true" if vals["dft2"] else "false"}\n'
                 f'def mdftIdft2IsFwd : Bool := {"true" if vals["idft2"] else "false"}')
@@ -630,39 +692,53 @@ def fft_route_items(g, ft, pr):
            f'def padLo (n N : Int) : Int := N / 2 - n / 2\ndef padHi (n N : Int) : Int := N / 2 - n / 2 + n\n'
            'def padOutLen (n Q : Rat) : Rat := ((Rat.ceil (n * Q) : Int) : Rat)')
 
-    def route(name, inner):
+    def route(name):
         def build():
             fn = get_def(pr, name)
-            rets = find_returns(fn)
-            env = {k: v for k, v in ((nm, val) for nm, val in assigns_in_order(fn)) if k == 'impulse_response'}
-            (ret,) = rets
+            (ret,) = find_returns(fn)
+            env = {k: v for k, v in local_env(fn).items() if k != 'padded_wavefront'}
             r = resolve(ret, env)
-            want = f"fft.fftshift(fft.{inner}(fft.ifftshift(padded_wavefront), norm='ortho'))"
-            shape_ok = u(r) == want
             # padded_wavefront = pad2d(wavefunction, Q) if Q != 1 else wavefunction
             ifs = [n for n in fn.body if isinstance(n, ast.If)]
-            pad_ok = len(ifs) == 1 and u(ifs[0].test) == 'Q != 1' and \
-                [u(s) for s in ifs[0].body] == ['padded_wavefront = pad2d(wavefunction, Q)'] and \
-                [u(s) for s in ifs[0].orelse] == ['padded_wavefront = wavefunction']
-            if not pad_ok:
+            ok_pad = False
+            if len(ifs) == 1 and u(ifs[0].test).replace(' ', '') in ('Q!=1', 'notQ==1', '1!=Q'):
+                b = [u(x).replace(' ', '') for x in ifs[0].body]
+                o = [u(x).replace(' ', '') for x in ifs[0].orelse]
+                ok_pad = b in (['padded_wavefront=pad2d(wavefunction,Q)'], ['padded_wavefront=pad2d(wavefunction,Q=Q)']) \
+                    and o == ['padded_wavefront=wavefunction']
+            if not ok_pad:
                 raise Untranslatable(f'{name}: padding statements not recognised')
-            if not (isinstance(r, ast.Call) and u(r.func) in ('fft.fftshift', 'fft.ifftshift')):
-                raise Untranslatable(f'{name} does not return a shifted transform: {u(r)}')
-            outer = u(r.func).split('.')[-1]
+
+            def shift_kind(c):
+                if isinstance(c, ast.Call) and u(c.func).split('.')[-1] in ('fftshift', 'ifftshift') and len(c.args) == 1 \
+                        and not c.keywords:
+                    return u(c.func).split('.')[-1]
+                raise Untranslatable(f'{name}: not a plain (i)fftshift call: {u(c)[:60]}')
+            outer = shift_kind(r)
             mid = r.args[0]
-            if not (isinstance(mid, ast.Call) and u(mid.func) in ('fft.fft2', 'fft.ifft2')):
-                raise Untranslatable(f'{name}: middle operation {u(mid)}')
-            nrm = [k.value.value for k in mid.keywords if k.arg == 'norm' and isinstance(k.value, ast.Constant)]
-            innr = mid.args[0]
-            if not (isinstance(innr, ast.Call) and u(innr.func) in ('fft.fftshift', 'fft.ifftshift')):
-                raise Untranslatable(f'{name}: inner operation {u(innr)}')
-            nm = name.capitalize()
-            return (f'def {name}OuterIsFftshift : Bool := {"true" if outer == "fftshift" else "false"}\n'
-                    f'def {name}InnerIsIfftshift : Bool := {"true" if u(innr.func).endswith(".ifftshift") else "false"}\n'
-                    f'def {name}UsesOrtho : Bool := {"true" if nrm == ["ortho"] else "false"}\n'
-                    f'def {name}Transform : String := "{u(mid.func).split(".")[-1]}"\n'
-                    f'def {name}PadsWithPad2dQ : Bool := {"true" if pad_ok else "false"}')
+            if not (isinstance(mid, ast.Call) and u(mid.func).split('.')[-1] in ('fft2', 'ifft2') and len(mid.args) == 1):
+                raise Untranslatable(f'{name}: middle operation {u(mid)[:60]}')
+            kws = {k.arg: k.value for k in mid.keywords}
+            if set(kws) - {'norm'}:
+                raise Untranslatable(f'{name}: extra keywords on the transform: {sorted(kws)}')
+            if 'norm' in kws and not isinstance(kws['norm'], ast.Constant):
+                raise Untranslatable(f'{name}: norm is not a literal')
+            normv = kws['norm'].value if 'norm' in kws else None
+            if normv not in (None, 'backward', 'ortho'):
+                raise Untranslatable(f'{name}: norm={normv!r}')
+            inner = shift_kind(mid.args[0])
+            if u(mid.args[0].args[0]) != 'padded_wavefront':
+                raise Untranslatable(f'{name}: transform of {u(mid.args[0].args[0])}')
+            b = lambda x: 'true' if x else 'false'
+            return (f'def {name}FlagsGen : RouteFlags := {{ innerIsIfftshift := {b(inner == "ifftshift")}, '
+                    f'outerIsFftshift := {b(outer == "fftshift")}, ortho := {b(normv == "ortho")}, '
+                    f'inverse := {b(u(mid.func).endswith("ifft2"))} }}')
         return build
+    for name in ('focus', 'unfocus'):
+        g.item(f'{name}.route', f'prysm/propagation.py:{name}', (lambda nm: (lambda: get_def(pr, nm)))(name), route(name),
+               f'def {name}FlagsGen : RouteFlags := {Mm}.{name}FlagsRef')
+
+    # ---- fixed-sampling dispatch: Q per axis and shift conversion as rational functions; both engines get the same arguments
     def dispatch(name, fwd):
         def build():
             fn = get_def(pr, name)
@@ -670,22 +746,76 @@ def fft_route_items(g, ft, pr):
             cc = find_calls(fn, 'czt.czt2' if fwd else 'czt.iczt2')
             if len(cm) != 1 or len(cc) != 1:
                 raise Untranslatable(f'{name}: expected one matrix-DFT and one chirp-Z call')
-            am = {k.arg: u(k.value) for k in cm[0].keywords}
-            ac = {k.arg: u(k.value) for k in cc[0].keywords}
-            if cm[0].args or cc[0].args:
-                raise Untranslatable(f'{name}: positional engine arguments')
-            same = am == ac and set(am) == {'ary', 'Q', 'samples_out', 'shift'}
-            return f'def {name}EnginesGetSameArgs : Bool := {"true" if same else "false"}'
+            params = ['ary', 'Q', 'samples_out', 'shift']
+
+            def kwargs(c):
+                d = {}
+                for i, a in enumerate(c.args):
+                    d[params[i]] = a
+                for k in c.keywords:
+                    d[k.arg] = k.value
+                if set(d) != set(params):
+                    raise Untranslatable(f'{name}: engine arguments {sorted(d)}')
+                return d
+            am, ac = kwargs(cm[0]), kwargs(cc[0])
+            same = all(u(am[k]) == u(ac[k]) for k in params)
+            if u(am['ary']) != 'wavefunction' or u(am['samples_out']) != 'output_samples':
+                raise Untranslatable(f'{name}: ary / samples_out arguments')
+            # Q = tuple(Q_for_sampling(input_diameter=s * input_dx, ...) for s in wavefunction.shape)
+            qv = find_assigns(fn, 'Q')
+            if len(qv) != 1 or u(am['Q']) != 'Q':
+                raise Untranslatable(f'{name}: Q is not a single local assignment')
+            elt, binds = comp_parts(qv[0])
+            if list(binds.values()) != ['wavefunction.shape']:
+                raise Untranslatable(f'{name}: Q does not iterate over wavefunction.shape: {binds}')
+            svar = list(binds)[0]
+            if not (isinstance(elt, ast.Call) and u(elt.func) == 'Q_for_sampling'):
+                raise Untranslatable(f'{name}: Q element is not Q_for_sampling(...)')
+            qfs = get_def(pr, 'Q_for_sampling')
+            qparams = [a.arg for a in qfs.args.args]
+            qargs = {}
+            for i, a in enumerate(elt.args):
+                qargs[qparams[i]] = a
+            for k in elt.keywords:
+                qargs[k.arg] = k.value
+            scal = {svar: 'n', 'input_dx': 'dxin', 'prop_dist': 'efl', 'wavelength': 'wvl', 'output_dx': 'dxout'}
+            tr = Tr(scal, mode='num')
+            qenv = {k: tr.expr(v) for k, v in qargs.items()}
+            if set(qenv) != set(qparams):
+                raise Untranslatable(f'{name}: Q_for_sampling arguments {sorted(qenv)}')
+            qbody = fn_to_lean(qfs, 'X', qparams, 'K', mode='num')
+            qterm = qbody.split(':=', 1)[1].strip()
+            # substitute the arguments (parameters appear as bare identifiers in the translated body)
+            import re
+            for k_, v_ in qenv.items():
+                qterm = re.sub(rf'\b{k_}\b', lambda m_: v_, qterm)
+            # shift conversion: inside `if shift[0] != 0 or shift[1] != 0:` shift = (shift[0]/output_dx, shift[1]/output_dx)
+            sv = find_assigns(fn, 'shift')
+            if len(sv) != 1 or not isinstance(sv[0], ast.Tuple) or len(sv[0].elts) != 2 or u(am['shift']) != 'shift':
+                raise Untranslatable(f'{name}: shift conversion not recognised')
+            sterms = []
+            for i, el in enumerate(sv[0].elts):
+                sterms.append(Tr({f'shift[{i}]': 's', 'output_dx': 'dxout', 'input_dx': 'dxin'}, mode='num').expr(el))
+            guards = [n for n in ast.walk(fn) if isinstance(n, ast.If) and any(isinstance(x, ast.Assign) and u(x.targets[0]) == 'shift'
+                                                                             for x in n.body)]
+            if len(guards) != 1 or u(guards[0].test).replace(' ', '') not in ('shift[0]!=0orshift[1]!=0', 'shift[1]!=0orshift[0]!=0'):
+                raise Untranslatable(f'{name}: guard of the shift conversion not recognised')
+            nm = 'ffs' if fwd else 'ufs'
+            return (f'/-- `Q` handed to the engines for an axis of `n` samples -/\n'
+                    f'def {nm}Q {{K : Type}} [Num K] (n dxin efl wvl dxout : K) : K :=\n  {qterm}\n'
+                    f'/-- the two components of the shift handed to the engines (the guard only skips the division of 0 by `output_dx`) -/\n'
+                    f'def {nm}Shift0 {{K : Type}} [Num K] (s dxin dxout : K) : K := {sterms[0]}\n'
+                    f'def {nm}Shift1 {{K : Type}} [Num K] (s dxin dxout : K) : K := {sterms[1]}\n'
+                    f'def {nm}EnginesGetSameArgs : Bool := {"true" if same else "false"}')
         return build
     for name, fwd in (('focus_fixed_sampling', True), ('unfocus_fixed_sampling', False)):
-        g.item(f'{name}.dispatch', f'prysm/propagation.py:{name}', (lambda nm: (lambda: get_def(pr, nm)))(name),
-               dispatch(name, fwd), f'def {name}EnginesGetSameArgs : Bool := true')
-
-    for name, inner in (('focus', 'fft2'), ('unfocus', 'ifft2')):
-        g.item(f'{name}.route', f'prysm/propagation.py:{name}', (lambda nm: (lambda: get_def(pr, nm)))(name), route(name, inner),
-               f'def {name}OuterIsFftshift : Bool := true\ndef {name}InnerIsIfftshift : Bool := true\n'
-               f'def {name}UsesOrtho : Bool := true\ndef {name}Transform : String := "{inner}"\n'
-               f'def {name}PadsWithPad2dQ : Bool := true')
+        nm = 'ffs' if fwd else 'ufs'
+        g.item(f'{name}.dispatch', f'prysm/propagation.py:{name}', (lambda n_: (lambda: get_def(pr, n_)))(name),
+               dispatch(name, fwd),
+               f'def {nm}Q {{K : Type}} [Num K] (n dxin efl wvl dxout : K) : K := ((wvl * efl) / (n * dxin)) / dxout\n'
+               f'def {nm}Shift0 {{K : Type}} [Num K] (s dxin dxout : K) : K := s / dxout\n'
+               f'def {nm}Shift1 {{K : Type}} [Num K] (s dxin dxout : K) : K := s / dxout\n'
+               f'def {nm}EnginesGetSameArgs : Bool := true')
 
 
 def force_fallbacks():
